@@ -263,6 +263,8 @@ class Harness:
             if sc is not None:
                 sci = unwrap(sim.simctl_int)
                 sci[1] = int(sc['mode'])
+                if sc.get('mode_per_lane') is not None:      # the selection method is a per-simulation setting, too
+                    for lane in range(sci.shape[1]): sci[1, lane] = int(sc['mode_per_lane'][lane % len(sc['mode_per_lane'])])
                 if sc.get('per_lane') is not None:
                     for lane in range(sci.shape[1]): sci[0, lane] = int(sc['per_lane'][lane % len(sc['per_lane'])])
             if self.use_proxies:
